@@ -9,9 +9,18 @@ CONSTANTS
   Passes = {%s}
   InitFails = %s
   LatchSkips = %s
+  UnlockAlways = TRUE
 INVARIANTS %s
 """
-AINV = "NoPanic CfgOrErr NoPartial NoParamRace WrittenOnce MutexOK"
+ALIVE = """SPECIFICATION LiveSpec
+CONSTANTS
+  Passes = {%s}
+  InitFails = %s
+  LatchSkips = TRUE
+  UnlockAlways = %s
+PROPERTIES AllReturn
+"""
+AINV = "NoPanic CfgOrErr NoPartial NoParamRace WrittenOnce MutexOK ErrReportedOnce"
 
 
 def design(ctx, passes=3):
@@ -23,6 +32,11 @@ def design(ctx, passes=3):
     out["initFails_latchSkips"] = r.distinct
     r = ctx.tlc("Analyzer", cfg_text=ACFG % (ps, "TRUE", "FALSE", AINV), workers=4, timeout=300, expect="violation")
     out["whatif_latchReturnsNeither"] = r.violated
+    # liveness: every pass returns; a latch path that keeps the mutex blocks every later pass
+    for fails in ("FALSE", "TRUE"):
+        r = ctx.tlc("Analyzer", cfg_text=ALIVE % (ps, fails, "TRUE"), workers=4, timeout=300, expect="ok")
+        out["liveness_initFails_%s" % fails] = r.distinct
+    out["whatif_latchKeepsMutex"] = ctx.tlc("Analyzer", cfg_text=ALIVE % (ps, "TRUE", "FALSE"), workers=4, timeout=300, expect="violation").violated
     return out
 
 
